@@ -79,17 +79,24 @@ func runC20(r *Run, p *Prog) {
 	pidFacts := func(fs []Fact) (bool, bool) {
 		return hasFact(fs, "EQ", "ext("+pidAtoi+",1)", "nil"), hasFact(fs, "EQ", "ext("+pidAtoi+",0)", "call:os.Getpid()")
 	}
-	var newFile, fileListener *ssa.Call
+	// (the listener construction may occur once per way of choosing the descriptor: `return listenerFor(3)` next to
+	// `return listenerFor(3 + i)`, or the view's own un-merging of a helper's results)
+	var newFiles, fileListeners []*ssa.Call
 	for _, cs := range callsNamed(act, false, "os.NewFile") {
-		newFile, _ = cs.Instr.(*ssa.Call)
+		if c, ok := cs.Instr.(*ssa.Call); ok {
+			newFiles = append(newFiles, c)
+		}
 	}
 	for _, cs := range callsNamed(act, false, "net.FileListener") {
-		fileListener, _ = cs.Instr.(*ssa.Call)
+		if c, ok := cs.Instr.(*ssa.Call); ok {
+			fileListeners = append(fileListeners, c)
+		}
 	}
-	if newFile == nil || fileListener == nil {
+	if len(newFiles) == 0 || len(fileListeners) == 0 {
 		r.Unresolved("V1", "os.NewFile / net.FileListener calls")
 		return
 	}
+	newFile := newFiles[0]
 	// ---- V1
 	r.Guard("V1", func() {
 		n := 0
@@ -99,9 +106,18 @@ func runC20(r *Run, p *Prog) {
 			}
 			n++
 			fs := T.FactsAt(rv.Ret.Block())
-			want := "ext(" + T.T(fileListener) + ",0)"
-			okVal := T.T(rv.Val) == want && strip(T.T(fileListener.Call.Args[0])) == strip(T.T(newFile))
-			okErr := hasFact(fs, "EQ", "ext("+T.T(fileListener)+",1)", "nil")
+			okVal, okErr := false, false
+			for _, fl := range fileListeners {
+				if T.T(rv.Val) != "ext("+T.T(fl)+",0)" {
+					continue
+				}
+				for _, nf := range newFiles {
+					if strip(T.T(fl.Call.Args[0])) == strip(T.T(nf)) {
+						okVal = true
+					}
+				}
+				okErr = hasFact(fs, "EQ", "ext("+T.T(fl)+",1)", "nil")
+			}
 			pidOK, pidEq := pidFacts(fs)
 			fdsOK := hasFact(fs, "EQ", "ext("+fdsAtoi+",1)", "nil")
 			lo, _ := intervalOf(fs, nfdsT)
@@ -117,107 +133,109 @@ func runC20(r *Run, p *Prog) {
 	})
 	// ---- V2
 	r.Guard("V2", func() {
-		fdV := newFile.Call.Args[0]
-		if cv, ok := fdV.(*ssa.Convert); ok {
-			fdV = cv.X
-		}
-		namesT := `ext(call:os.LookupEnv(const:"LISTEN_FDNAMES"),0)`
-		splitT := `call:strings.Split(` + namesT + `,const:":")`
-		type leaf struct {
-			v     ssa.Value
-			facts []Fact
-			from  *ssa.BasicBlock
-			to    *ssa.BasicBlock
-		}
-		var leaves []leaf
-		var walk func(v ssa.Value, facts []Fact, from, to *ssa.BasicBlock, depth int)
-		walk = func(v ssa.Value, facts []Fact, from, to *ssa.BasicBlock, depth int) {
-			ph, ok := v.(*ssa.Phi)
-			if !ok || depth > 4 {
-				leaves = append(leaves, leaf{v, facts, from, to})
-				return
+		for _, newFile := range newFiles {
+			fdV := newFile.Call.Args[0]
+			if cv, ok := fdV.(*ssa.Convert); ok {
+				fdV = cv.X
 			}
-			// constraints on this phi known downstream (facts mention its term)
-			pt := T.T(ph)
-			lo, hi := intervalOf(facts, pt)
-			for i, e := range ph.Edges {
-				pred := ph.Block().Preds[i]
-				if k, ok := e.(*ssa.Const); ok && k.Value != nil {
-					c := int(k.Int64())
-					if c < lo || c > hi {
-						continue // excluded by a later test on the path (e.g. the initial -1 against fd < 0)
+			namesT := `ext(call:os.LookupEnv(const:"LISTEN_FDNAMES"),0)`
+			splitT := `call:strings.Split(` + namesT + `,const:":")`
+			type leaf struct {
+				v     ssa.Value
+				facts []Fact
+				from  *ssa.BasicBlock
+				to    *ssa.BasicBlock
+			}
+			var leaves []leaf
+			var walk func(v ssa.Value, facts []Fact, from, to *ssa.BasicBlock, depth int)
+			walk = func(v ssa.Value, facts []Fact, from, to *ssa.BasicBlock, depth int) {
+				ph, ok := v.(*ssa.Phi)
+				if !ok || depth > 4 {
+					leaves = append(leaves, leaf{v, facts, from, to})
+					return
+				}
+				// constraints on this phi known downstream (facts mention its term)
+				pt := T.T(ph)
+				lo, hi := intervalOf(facts, pt)
+				for i, e := range ph.Edges {
+					pred := ph.Block().Preds[i]
+					if k, ok := e.(*ssa.Const); ok && k.Value != nil {
+						c := int(k.Int64())
+						if c < lo || c > hi {
+							continue // excluded by a later test on the path (e.g. the initial -1 against fd < 0)
+						}
 					}
+					fs := append(append([]Fact{}, facts...), T.FactsAt(pred)...)
+					fs = append(fs, T.edgeFactsOn(pred, ph.Block())...)
+					// facts about an inner phi are established on the edge leaving its block
+					walk(e, fs, pred, ph.Block(), depth+1)
 				}
-				fs := append(append([]Fact{}, facts...), T.FactsAt(pred)...)
-				fs = append(fs, T.edgeFactsOn(pred, ph.Block())...)
-				// facts about an inner phi are established on the edge leaving its block
-				walk(e, fs, pred, ph.Block(), depth+1)
 			}
-		}
-		useFacts := T.FactsAt(newFile.Block())
-		walk(fdV, useFacts, nil, newFile.Block(), 0)
-		if len(leaves) == 0 {
-			r.Unresolved("V2", "reaching definitions of the descriptor")
-			return
-		}
-		for _, lf := range leaves {
-			// when the leaf sits behind an inner phi, add the facts of the edge from that phi's block to the outer one
-			desc := strip(T.T(lf.v))
-			switch x := lf.v.(type) {
-			case *ssa.Const:
-				c := int(x.Int64())
-				lo, hi := intervalOf(lf.facts, nfdsT)
-				r.Ob("V2", fn, fmt.Sprintf("descriptor = constant %d", c), newFile.Pos(), c == 3 && lo == 1 && hi == 1,
-					fmt.Sprintf("the constant %d is used as descriptor on a path where LISTEN_FDS is known to be in [%d,%d]; only 3 with LISTEN_FDS == 1 is allowed", c, lo, hi))
-			case *ssa.BinOp:
-				var idx ssa.Value
-				if k, ok := x.X.(*ssa.Const); ok && x.Op == token.ADD && k.Int64() == 3 {
-					idx = x.Y
-				} else if k, ok := x.Y.(*ssa.Const); ok && x.Op == token.ADD && k.Int64() == 3 {
-					idx = x.X
-				}
-				if idx == nil {
-					r.Ob("V2", fn, "descriptor = "+desc, newFile.Pos(), false, "the descriptor is not 3 plus the position of the matching name")
-					continue
-				}
-				it := T.T(idx)
-				set := hasFact(lf.facts, "EQ", `ext(call:os.LookupEnv(const:"LISTEN_FDNAMES"),1)`, "const:true")
-				arity := hasFact(lf.facts, "EQ", "call:len("+splitT+")", nfdsT)
-				match := hasFact(lf.facts, "EQ", "index("+splitT+","+it+")", `const:"varlink"`)
-				// ascending range index: idx = phi(-1, idx) + 1, bounded by len
-				asc := false
-				var hdr *ssa.BasicBlock
-				if bo, ok := idx.(*ssa.BinOp); ok && bo.Op == token.ADD {
-					if ph, ok := bo.X.(*ssa.Phi); ok {
-						if k, ok := bo.Y.(*ssa.Const); ok && k.Int64() == 1 && len(ph.Edges) == 2 {
-							init, isK := ph.Edges[0].(*ssa.Const)
-							if isK && init.Int64() == -1 && ph.Edges[1] == ssa.Value(bo) {
+			useFacts := T.FactsAt(newFile.Block())
+			walk(fdV, useFacts, nil, newFile.Block(), 0)
+			if len(leaves) == 0 {
+				r.Unresolved("V2", "reaching definitions of the descriptor")
+				continue
+			}
+			for _, lf := range leaves {
+				// when the leaf sits behind an inner phi, add the facts of the edge from that phi's block to the outer one
+				desc := strip(T.T(lf.v))
+				switch x := lf.v.(type) {
+				case *ssa.Const:
+					c := int(x.Int64())
+					lo, hi := intervalOf(lf.facts, nfdsT)
+					r.Ob("V2", fn, fmt.Sprintf("descriptor = constant %d", c), newFile.Pos(), c == 3 && lo == 1 && hi == 1,
+						fmt.Sprintf("the constant %d is used as descriptor on a path where LISTEN_FDS is known to be in [%d,%d]; only 3 with LISTEN_FDS == 1 is allowed", c, lo, hi))
+				case *ssa.BinOp:
+					var idx ssa.Value
+					if k, ok := x.X.(*ssa.Const); ok && x.Op == token.ADD && k.Int64() == 3 {
+						idx = x.Y
+					} else if k, ok := x.Y.(*ssa.Const); ok && x.Op == token.ADD && k.Int64() == 3 {
+						idx = x.X
+					}
+					if idx == nil {
+						r.Ob("V2", fn, "descriptor = "+desc, newFile.Pos(), false, "the descriptor is not 3 plus the position of the matching name")
+						continue
+					}
+					it := T.T(idx)
+					set := hasFact(lf.facts, "EQ", `ext(call:os.LookupEnv(const:"LISTEN_FDNAMES"),1)`, "const:true")
+					arity := hasFact(lf.facts, "EQ", "call:len("+splitT+")", nfdsT)
+					match := hasFact(lf.facts, "EQ", "index("+splitT+","+it+")", `const:"varlink"`)
+					// ascending range index: idx = phi(-1, idx) + 1, bounded by len
+					asc := false
+					var hdr *ssa.BasicBlock
+					if bo, ok := idx.(*ssa.BinOp); ok && bo.Op == token.ADD {
+						if ph, ok := bo.X.(*ssa.Phi); ok {
+							if k, ok := bo.Y.(*ssa.Const); ok && k.Int64() == 1 && len(ph.Edges) == 2 {
+								init, isK := ph.Edges[0].(*ssa.Const)
+								if isK && init.Int64() == -1 && ph.Edges[1] == ssa.Value(bo) {
+									asc = true
+									hdr = ph.Block()
+								}
+							}
+						}
+					}
+					// ... or a counted loop from 0: idx = phi(0, idx+1)
+					if ph, ok := idx.(*ssa.Phi); ok && len(ph.Edges) == 2 {
+						init, isK := ph.Edges[0].(*ssa.Const)
+						step, isB := ph.Edges[1].(*ssa.BinOp)
+						if isK && init.Int64() == 0 && isB && step.Op == token.ADD && step.X == ssa.Value(ph) {
+							if k, ok := step.Y.(*ssa.Const); ok && k.Int64() == 1 {
 								asc = true
 								hdr = ph.Block()
 							}
 						}
 					}
-				}
-				// ... or a counted loop from 0: idx = phi(0, idx+1)
-				if ph, ok := idx.(*ssa.Phi); ok && len(ph.Edges) == 2 {
-					init, isK := ph.Edges[0].(*ssa.Const)
-					step, isB := ph.Edges[1].(*ssa.BinOp)
-					if isK && init.Int64() == 0 && isB && step.Op == token.ADD && step.X == ssa.Value(ph) {
-						if k, ok := step.Y.(*ssa.Const); ok && k.Int64() == 1 {
-							asc = true
-							hdr = ph.Block()
-						}
+					first := false
+					if hdr != nil && lf.to != nil {
+						again, _ := reachFromBlock(act, lf.to, func(in ssa.Instruction) bool { return in.Block() == hdr }, nil)
+						first = !again
 					}
+					r.Ob("V2", fn, "descriptor = 3 + position of the first \"varlink\" entry of LISTEN_FDNAMES", newFile.Pos(), set && arity && match && asc && first,
+						fmt.Sprintf("LISTEN_FDNAMES set: %v; exactly LISTEN_FDS entries: %v; entry at that position == \"varlink\": %v; ascending range index: %v; loop left at the first match: %v", set, arity, match, asc, first))
+				default:
+					r.Ob("V2", fn, "descriptor = "+desc, newFile.Pos(), false, "unexpected definition of the descriptor")
 				}
-				first := false
-				if hdr != nil && lf.to != nil {
-					again, _ := reachFromBlock(act, lf.to, func(in ssa.Instruction) bool { return in.Block() == hdr }, nil)
-					first = !again
-				}
-				r.Ob("V2", fn, "descriptor = 3 + position of the first \"varlink\" entry of LISTEN_FDNAMES", newFile.Pos(), set && arity && match && asc && first,
-					fmt.Sprintf("LISTEN_FDNAMES set: %v; exactly LISTEN_FDS entries: %v; entry at that position == \"varlink\": %v; ascending range index: %v; loop left at the first match: %v", set, arity, match, asc, first))
-			default:
-				r.Ob("V2", fn, "descriptor = "+desc, newFile.Pos(), false, "unexpected definition of the descriptor")
 			}
 		}
 		r.Floor("V2", 2)
@@ -225,7 +243,10 @@ func runC20(r *Run, p *Prog) {
 	// ---- V4 completeness for the single-descriptor case: with a matching pid and LISTEN_FDS == 1 the only fallback
 	// is a descriptor that is not a listening socket
 	r.Guard("V4", func() {
-		flErr := "ext(" + T.T(fileListener) + ",1)"
+		var flErrs []string
+		for _, fl := range fileListeners {
+			flErrs = append(flErrs, "ext("+T.T(fl)+",1)")
+		}
 		contradicts := func(fs []Fact) bool {
 			if hasFact(fs, "NE", "ext("+pidAtoi+",1)", "nil") || hasFact(fs, "NE", "ext("+pidAtoi+",0)", "call:os.Getpid()") || hasFact(fs, "NE", "ext("+fdsAtoi+",1)", "nil") {
 				return true
@@ -241,7 +262,12 @@ func runC20(r *Run, p *Prog) {
 			if !ok || T.T(ret.Results[0]) != "nil" {
 				return false
 			}
-			return !hasFact(T.FactsAt(in.Block()), "NE", flErr, "nil")
+			for _, flErr := range flErrs {
+				if hasFact(T.FactsAt(in.Block()), "NE", flErr, "nil") {
+					return false
+				}
+			}
+			return true
 		}, nil, func(a, b *ssa.BasicBlock) bool { return contradicts(T.edgeFactsOn(a, b)) })
 		r.Ob("V4", fn, "with a matching LISTEN_PID and LISTEN_FDS == 1, descriptor 3 is used unless it is not a listening socket", act.Pos(), !reach,
 			"with LISTEN_PID naming this process and exactly one descriptor passed, the function can still fall back to the address for a reason other than FileListener failing (e.g. because of LISTEN_FDNAMES): the single descriptor 3 must be served", witnessPos(p, w)...)
